@@ -70,8 +70,39 @@ struct Pending {
     restored: Vec<Obs>,
 }
 
+/// Directed: a file whose mtime lies beyond year 9999 (possible on tmpfs/btrfs, whose timestamps have 64-bit
+/// seconds; ext4/xfs clamp earlier).  jiff's `Timestamp` cannot hold it: Lean `C01b.source_out_of_range_panics`
+/// says the conversion panics — the hypothesis `mtimes in jiff's range` of `backup_restore_exact` is exactly
+/// this.  Run the real code at the excluded point.
+fn far_future_mtime(report: &mut Report) {
+    let base = std::path::PathBuf::from(std::env::var("C17_TMPFS").unwrap_or_else(|_| "/dev/shm".to_string()));
+    let Ok(work) = tempfile::tempdir_in(&base) else {
+        report.hit("far-mtime:no-tmpfs");
+        return;
+    };
+    let (src, arch) = (work.path().join("src"), work.path().join("arch"));
+    std::fs::create_dir(&src).unwrap();
+    std::fs::write(src.join("f"), b"x").unwrap();
+    let secs: i64 = 300_000_000_000; // year 11476
+    let ft = filetime::FileTime::from_unix_time(secs, 0);
+    if filetime::set_file_mtime(src.join("f"), ft).is_err() || std::fs::metadata(src.join("f")).map(|m| std::os::unix::fs::MetadataExt::mtime(&m)).unwrap_or(0) != secs {
+        report.hit("far-mtime:file-system-clamps");
+        return;
+    }
+    create_archive(&arch);
+    let p = BackupParams::default();
+    let r = real_backup(&arch, &src, &p, IceptConfig::default());
+    let case = json!({"op": "backup", "directed": "one file with mtime 300000000000 s (year 11476) on tmpfs"});
+    report.case("far-mtime", true);
+    report.hit("far-mtime:run");
+    if !r.result.starts_with("result ok") || !r.result.contains(" errors=0") {
+        report.oracle_fail("backup-crash:mtime-beyond-year-9999", case, "backup crashed (or reported errors) on a source file whose mtime is beyond year 9999", json!({"result": trunc(&r.result)}));
+    }
+}
+
 pub fn run(tier: &str, seed: u64, report: &mut Report) {
     let thorough = tier == "thorough";
+    far_future_mtime(report);
     let n_cases = if thorough { 1500 } else { 120 };
     let mut session = Session::new();
     let mut pend: Vec<Pending> = Vec::new();
